@@ -1058,3 +1058,173 @@ def corpus():
     m = importlib.util.module_from_spec(spec)
     spec.loader.exec_module(m)
     return [(k, f) for k, f in m.ALL.items() if "_%s_" % PROP in k]
+
+
+# --------------------------------------------------------------------------------------
+# runtime-only observations (what no model of this check covers; C10 / C12 / C04 do in depth)
+
+_SYNTH_SRC = '''
+import attr, attrs
+
+class Count:
+    """A value whose hash() calls are counted."""
+    def __init__(self, v): self.v = v; self.n = 0
+    def __hash__(self): self.n += 1; return hash(self.v)
+    def __eq__(self, o): return isinstance(o, Count) and o.v == self.v
+
+def conv(v): return ("conv", v)
+
+def _post(self):
+    object.__setattr__(self, "w", ("post", self.y))
+
+{decls}
+'''
+
+_VARIANTS = [
+    ("AS_d", "@attr.s(frozen=True, slots=False{extra})", "attr.ib"),
+    ("AS_s", "@attr.s(frozen=True, slots=True{extra})", "attr.ib"),
+    ("DF_d", "@attrs.define(frozen=True, slots=False{extra})", "attrs.field"),
+    ("DF_s", "@attrs.define(frozen=True{extra})", "attrs.field"),
+    ("FZ_d", "@attrs.frozen(slots=False{extra})", "attrs.field"),
+    ("FZ_s", "@attrs.frozen({extra0})", "attrs.field"),
+]
+
+
+def _synth_module(tag):
+    decls = []
+    for name, deco, fld in _VARIANTS:
+        ann = ": int" if not fld.startswith("attr.ib") else ""
+        for cache in (False, True):
+            extra = ", cache_hash=True, unsafe_hash=True" if cache else ""
+            d = deco.format(extra=extra, extra0=extra.lstrip(", "))
+            cn = name + ("_c" if cache else "")
+            decls.append(
+                "%s\nclass %s:\n    x%s = %s(converter=conv)\n    y%s = %s(default=5)\n"
+                "    z%s = %s(factory=tuple)\n    w%s = %s(init=False)\n    __attrs_post_init__ = _post\n"
+                % (d, cn, ann, fld, ann, fld, ann, fld, ann, fld))
+            # frozen only by inheritance: attrs subclass and undecorated subclass
+            sub_deco = "@attr.s(slots=%s%s)" % ("True" if name.endswith("_s") else "False", extra) \
+                if fld.startswith("attr.ib") else "@attrs.define(slots=%s%s)" % ("True" if name.endswith("_s") else "False", extra)
+            decls.append("%s\nclass %s_sub(%s):\n    v%s = %s(default=7)\n" % (sub_deco, cn, cn, ann, fld))
+            decls.append("class %s_plain(%s):\n    pass\n" % (cn, cn))
+        # exceptions
+        d = deco.format(extra=", auto_exc=True" if fld.startswith("attr.ib") else "", extra0="")
+        decls.append("%s\nclass %s_exc(Exception):\n    x%s = %s()\n    y%s = %s(default=5)\n"
+                     % (d, name, ann, fld, ann, fld))
+        decls.append("class %s_exc_plain(%s_exc):\n    pass\n" % (name, name))
+    modname = "c05_synth_%s" % tag
+    m = types.ModuleType(modname)
+    sys.modules[modname] = m
+    exec(compile(_SYNTH_SRC.format(decls="\n".join(decls)), "<%s>" % modname, "exec"), m.__dict__)
+    return m
+
+
+def _is_frozen_instance(o, name="x"):
+    try:
+        setattr(o, name, 0)
+    except FrozenInstanceError:
+        pass
+    else:
+        return False
+    try:
+        delattr(o, name)
+    except FrozenInstanceError:
+        return True
+    return False
+
+
+def extra(tier, seed):
+    import copy
+    import pickle
+    from .vlib import Discrepancy
+    out = []
+    n = [0]
+
+    def obs(ok, what, detail):
+        n[0] += 1
+        if not ok:
+            out.append(Discrepancy({"kind": "runtime", "what": what}, "runtime observation failed: %s (%s)" % (what, detail),
+                                   {"runtime": what, "detail": detail}))
+
+    obs(issubclass(FrozenInstanceError, FrozenError) and issubclass(FrozenError, AttributeError),
+        "exception-hierarchy", "FrozenInstanceError < FrozenError < AttributeError")
+    m = _synth_module("%d" % seed)
+    try:
+        for name, _d, _f in _VARIANTS:
+            for cache in (False, True):
+                for suffix in ("", "_sub", "_plain"):
+                    cn = name + ("_c" if cache else "") + suffix
+                    cls = getattr(m, cn)
+                    cnt = m.Count(3)
+                    try:
+                        o = cls(cnt)
+                    except Exception as e:
+                        obs(False, "construct", "%s: %s" % (cn, type(e).__name__))
+                        continue
+                    want = [("conv", cnt), 5, (), ("post", 5)] + ([7] if suffix == "_sub" else [])
+                    got = [o.x, o.y, o.z, o.w] + ([o.v] if suffix == "_sub" else [])
+                    obs(got == want, "construct-values", "%s: %r" % (cn, got))
+                    obs(_is_frozen_instance(o), "frozen", cn)
+                    if cache:
+                        h1 = hash(o)
+                        n1 = cnt.n
+                        h2 = hash(o)
+                        obs(h1 == h2 and n1 == 1 and cnt.n == 1, "hash-cached-once", "%s: %r" % (cn, (h1 == h2, n1, cnt.n)))
+                        obs(_is_frozen_instance(o) and [o.x, o.y, o.z, o.w] == want[:4], "frozen-after-hash", cn)
+                    for how, fn in (("copy", copy.copy), ("deepcopy", copy.deepcopy),
+                                    ("pickle", lambda v: pickle.loads(pickle.dumps(v))),
+                                    ("evolve", lambda v: attr.evolve(v, x=v.x[1]) if False else attr.evolve(v))):
+                        try:
+                            if how == "evolve":
+                                # w is init=False: evolve re-runs __init__ (x goes through the converter again)
+                                c2 = attr.evolve(o, x=cnt)
+                            else:
+                                c2 = fn(o)
+                        except Exception as e:
+                            obs(False, how, "%s: %s" % (cn, type(e).__name__))
+                            continue
+                        same = (type(c2) is cls and c2.x == o.x and c2.y == o.y and c2.z == o.z and c2.w == o.w
+                                and (suffix != "_sub" or c2.v == o.v))
+                        obs(same and (c2 == o), how + "-equal", cn)
+                        obs(_is_frozen_instance(c2), how + "-still-frozen", cn)
+                        if cache and how != "evolve":
+                            obs(hash(c2) == hash(o), how + "-hash", cn)
+            for suffix in ("_exc", "_exc_plain"):
+                cn = name + suffix
+                cls = getattr(m, cn)
+                # raise ... from ..., implicit context, with_traceback, notes
+                cause = KeyError("k")
+                try:
+                    try:
+                        raise cls(1) from cause
+                    except cls as e1:
+                        caught = e1
+                    ok = caught.__cause__ is cause and caught.__suppress_context__ is True and caught.__traceback__ is not None
+                    obs(ok, "raise-from", cn)
+                    try:
+                        try:
+                            raise ValueError("first")
+                        except ValueError as first:
+                            ctx = first
+                            raise cls(2)
+                    except cls as e2:
+                        obs(e2.__context__ is ctx and e2.__cause__ is None, "implicit-context", cn)
+                    e3 = cls(3)
+                    obs(e3.with_traceback(_TB) is e3 and e3.__traceback__ is _TB, "with_traceback", cn)
+                    e3.add_note("a")
+                    e3.add_note("b")
+                    obs(e3.__notes__ == ["a", "b"], "add_note", cn)
+                    del e3.__notes__
+                    obs(not hasattr(e3, "__notes__"), "del-notes", cn)
+                    obs((e3.x, e3.y, e3.args) == (3, 5, (3, 5)), "exception-fields-kept", "%s: %r" % (cn, (e3.x, e3.y, e3.args)))
+                    obs(_is_frozen_instance(e3), "exception-frozen", cn)
+                    try:
+                        del e3.__cause__
+                        obs(False, "exception-del-cause-refused", cn)
+                    except FrozenInstanceError:
+                        obs(True, "exception-del-cause-refused", cn)
+                except Exception as e:
+                    obs(False, "exception-usage", "%s: %s: %s" % (cn, type(e).__name__, e))
+    finally:
+        sys.modules.pop(m.__name__, None)
+    return out, {"runtime_observations": n[0]}
